@@ -17,7 +17,7 @@ EXPLANATION = (
 )
 ASSUMPTIONS = [
     "StubDatabase, DetLoop (bounded interleaving exploration through the solver: each path is one schedule; schedules that differ only after the K-th choice point are not distinguished), utils.random_name replaced by a counter",
-    "graphs: 2-transformer chain; scatter->transformer->gather; two scattered inputs joined by a dot-product combinator, summed and gathered; conditional step with a skip port; two independent branches with two workflow outputs; scatter->ScheduleStep->ExecuteStep->gather on the real DefaultScheduler with a slot-limited stub connector (ScheduleStep._set_job_directories and the data manager are stubbed: no file system)",
+    "graphs: 2-transformer chain; scatter->transformer->gather; two scattered inputs joined by a dot-product combinator, summed and gathered; conditional step with a skip port; two independent branches with two workflow outputs; a two-input transformer fed with the same tags in different orders; a scattered input joined with two plain (broadcast) inputs; scatter->ScheduleStep->ExecuteStep->gather on the real DefaultScheduler with a slot-limited stub connector (ScheduleStep._set_job_directories and the data manager are stubbed: no file system)",
     "at most one injected fault (a transformer raising, or the command of job .0 returning FAILED); DummyFailureManager-like failure manager (recover re-raises); loops are covered at step level by C06, not here; <= 3 list elements",
     "job commands complete only when the harness releases them, in a solver-chosen order; once an injected fault has fired, jobs still running are never released (long-running jobs): the engine has to cancel them",
 ]
@@ -97,6 +97,50 @@ def gen(prop, oracle, tier):
             1,
             f"scatter {n} -> schedule -> execute on a location with {slots} slot(s) -> gather; job completion order symbolic",
             Kx=2 if quick else 3,
+        )
+    # commands that complete / fail immediately (no harness gate): the failure of job .0 can hit
+    # siblings that have not started yet or that are inside their final scheduler notification
+    for n, slots in ((2, 2), (3, 2)) if quick else ((2, 2), (3, 2), (3, 3)):
+        add(
+            f"execnow_n{n}_s{slots}",
+            f"g_exec(e, [v0, v1, v2], {n}, {slots}, [], gated=False)",
+            ["v0: int", "v1: int", "v2: int"],
+            [],
+            1,
+            f"scatter {n} -> schedule -> execute on a location with {slots} slots -> gather; commands finish or fail IMMEDIATELY",
+            Kx=2 if quick else 4,
+        )
+    # hardware location: notifications contend for the scheduler lock while a release is being measured
+    for n in () if quick else (2, 3):
+        add(
+            f"exechw_n{n}",
+            f"g_exec(e, [v0, v1, v2], {n}, 0, [], gated=False, hw=True, delay=d)",
+            ["v0: int", "v1: int", "v2: int", "d: int"],
+            ["0 <= d <= 16"],
+            1,
+            f"scatter {n} -> schedule -> execute on a location with 8 cores (1 core per job) -> gather; commands finish or fail immediately; measuring the released storage takes d (symbolic, 0..16) scheduling steps inside the scheduler's critical section",
+            Kx=1 if quick else 3,
+        )
+    # two-input transformer whose ports deliver the same tags in different orders
+    add(
+        "join2_n3",
+        "g_join2(e, [v0, v1, v2, v3, v4, v5], 3, [q0, q1, q2])",
+        [f"v{i}: int" for i in range(6)] + ["q0: int", "q1: int", "q2: int"],
+        ["0 <= q0 <= 2", "0 <= q1 <= 2", "0 <= q2 <= 2"],
+        1,
+        "two-input transformer; port a delivers tags 0.0,0.1,0.2, port b the same tags in a solver-chosen order; gather",
+        Kx=1 if quick else 2,
+    )
+    # a scattered input joined with two plain inputs (broadcast)
+    for n in (1, 2):
+        add(
+            f"bcast_n{n}",
+            f"g_bcast(e, [v0, v1, v2, v3, v4], {n})",
+            [f"v{i}: int" for i in range(5)],
+            [],
+            1,
+            f"scatter a list of {n}, dot product with two non-scattered inputs, sum, gather",
+            Kx=2 if quick else 4,
         )
     return out
 
